@@ -4,6 +4,7 @@ from rules import v1model, C03 as C03mod
 from spec import tables
 
 LEVEL = 'other'
+FIXTURES = ['F2', 'F3']
 H1, A1 = tables.V1_HEADER, tables.V1_ADDR
 KW = {'Tcp4': tables.V1_TCP4, 'Tcp6': tables.V1_TCP6, 'Unknown': tables.V1_UNKNOWN}
 
